@@ -40,9 +40,17 @@ fn doc(rng: &mut Rng) -> String {
     elems.retain(|e| e.kind != 102); // the A2ML block is irrelevant here
     let mut text = a2lgen::file_text(&[elems], rng);
     // sprinkle non-ASCII into a string and a comment
-    let u1 = unicode_string(rng).replace('"', "").replace('\\', "");
+    let mut u1 = unicode_string(rng).replace('"', "").replace('\\', "");
+    // U+FEFF inside the text is an ordinary character (only a leading one is a byte order mark)
+    if rng.chance(1, 4) {
+        u1.push_str("a\u{feff}b");
+    }
     let u2 = unicode_string(rng).replace("*/", "");
     text = text.replacen("/begin PROJECT p \"\"", &format!("/begin PROJECT p \"{u1}\" /* {u2} */"), 1);
+    // the document may start with white space (blank first line, CR LF, tab)
+    if rng.chance(1, 4) {
+        text = format!("{}{text}", ["\n", "\r\n", "\t", " ", "\n\n "][rng.below(5)]);
+    }
     // every length residue: pad with 0..3 trailing blanks
     for _ in 0..rng.below(4) {
         text.push(' ');
